@@ -1,0 +1,132 @@
+// Copyright (c) 2024, Intel Corporation.
+// SPDX-License-Identifier: BSD-3-Clause
+
+//go:build verif
+// +build verif
+
+package deflate
+
+import "fmt"
+
+// Verification-only helpers (build tag verif): re-home the Writer's output
+// and token buffers between pattern-filled fences so that out-of-bounds stores
+// by the unsafe / assembly encoders become observable.
+
+const (
+	verifFenceBytes  = 4096
+	verifFenceTokens = 1024
+)
+
+func verifPattern(i int) byte { return byte(0xA5 ^ (i * 7)) }
+
+func verifTokenPattern(i int) token { return token(0xC3A5965A ^ uint32(i*2654435761)) }
+
+type verifByteGuard struct {
+	name   string
+	whole  []byte
+	lo, hi int
+}
+
+func newVerifByteGuard(name string, size int) *verifByteGuard {
+	g := &verifByteGuard{name: name, whole: make([]byte, verifFenceBytes+size+verifFenceBytes), lo: verifFenceBytes, hi: verifFenceBytes + size}
+	for i := 0; i < g.lo; i++ {
+		g.whole[i] = verifPattern(i)
+	}
+	for i := g.hi; i < len(g.whole); i++ {
+		g.whole[i] = verifPattern(i)
+	}
+	return g
+}
+
+func (g *verifByteGuard) check() error {
+	for i := 0; i < g.lo; i++ {
+		if g.whole[i] != verifPattern(i) {
+			return fmt.Errorf("%s: store %d bytes before the buffer", g.name, g.lo-i)
+		}
+	}
+	for i := g.hi; i < len(g.whole); i++ {
+		if g.whole[i] != verifPattern(i) {
+			return fmt.Errorf("%s: store %d bytes past the end of the buffer", g.name, i-g.hi+1)
+		}
+	}
+	return nil
+}
+
+type verifTokenGuard struct {
+	name   string
+	whole  []token
+	lo, hi int
+}
+
+func newVerifTokenGuard(name string, size int) *verifTokenGuard {
+	g := &verifTokenGuard{name: name, whole: make([]token, verifFenceTokens+size+verifFenceTokens), lo: verifFenceTokens, hi: verifFenceTokens + size}
+	for i := 0; i < g.lo; i++ {
+		g.whole[i] = verifTokenPattern(i)
+	}
+	for i := g.hi; i < len(g.whole); i++ {
+		g.whole[i] = verifTokenPattern(i)
+	}
+	return g
+}
+
+func (g *verifTokenGuard) check() error {
+	for i := 0; i < g.lo; i++ {
+		if g.whole[i] != verifTokenPattern(i) {
+			return fmt.Errorf("%s: store %d tokens before the buffer", g.name, g.lo-i)
+		}
+	}
+	for i := g.hi; i < len(g.whole); i++ {
+		if g.whole[i] != verifTokenPattern(i) {
+			return fmt.Errorf("%s: store %d tokens past the end of the buffer", g.name, i-g.hi+1)
+		}
+	}
+	return nil
+}
+
+// VerifGuards holds the fences of one Writer; the caller keeps it.
+type VerifGuards struct {
+	bytes  []*verifByteGuard
+	tokens []*verifTokenGuard
+}
+
+// VerifGuardBuffers moves the output buffer and the token buffer of an
+// accelerated Writer between fences, keeping their lengths and capacities. It
+// must be called on a Writer that has not been written to yet. It returns nil
+// for Writers that delegate to the standard library.
+func (w *Writer) VerifGuardBuffers() *VerifGuards {
+	vg := &VerifGuards{}
+	switch c := w.lc.(type) {
+	case *dynCompressor:
+		g := newVerifByteGuard("dyn.output", len(c.buf.output))
+		c.buf.output = g.whole[g.lo:g.hi:g.hi]
+		vg.bytes = append(vg.bytes, g)
+		t := newVerifTokenGuard("dyn.tokens", cap(c.tokens))
+		c.tokens = t.whole[t.lo:t.lo:t.hi]
+		vg.tokens = append(vg.tokens, t)
+	case *huffmanOnly:
+		g := newVerifByteGuard("huffmanonly.output", len(c.buf.output))
+		c.buf.output = g.whole[g.lo:g.hi:g.hi]
+		vg.bytes = append(vg.bytes, g)
+	default:
+		return nil
+	}
+	return vg
+}
+
+// Check reports the first fence element that was overwritten.
+func (vg *VerifGuards) Check() error {
+	if vg == nil {
+		return nil
+	}
+	for _, g := range vg.bytes {
+		if err := g.check(); err != nil {
+			return err
+		}
+	}
+	for _, g := range vg.tokens {
+		if err := g.check(); err != nil {
+			return err
+		}
+	}
+	return nil
+}
